@@ -31,6 +31,13 @@ def configs(ctx: Ctx) -> list[dict]:
             out.append({"module": mods[(ai + bi) % len(mods)], "seed": 1 + rng.randrange(50), "algorithm": alg,
                         "iterations": it, "executions": ex, "statements": st, "assertions": "NONE",
                         "metrics": "BRANCH", "population": 4, "min_strategy": "NONE"})
+    # statement budgets around the cost of the initial population and of the first generations, for the
+    # algorithms that execute tests before the first iteration (the budget must be charged from the start)
+    for ai, alg in enumerate(("MOSA", "DYNAMOSA", "WHOLE_SUITE")):
+        for st in ((25, 40) if ctx.quick else (20, 25, 32, 40, 48, 55, 70)):
+            out.append({"module": mods[ai % len(mods)], "seed": 7 + ai, "algorithm": alg, "iterations": 10,
+                        "executions": -1, "statements": st, "assertions": "NONE", "metrics": "BRANCH",
+                        "population": 4, "min_strategy": "NONE"})
     # a module whose tests time out: budget accounting must count those executions too
     for alg in (["DYNAMOSA", "RANDOM"] if ctx.quick else ALGS):
         out.append({"module": "c_hang", "seed": 4, "algorithm": alg, "iterations": 30, "executions": 8,
@@ -42,13 +49,13 @@ def configs(ctx: Ctx) -> list[dict]:
 
 def project(run: dict) -> dict:
     """Counters: iterations from the iteration condition, test executions counted by the harness
-    (every executor.execute during the search, timeouts included), statements from the statement
-    condition; LIMITS from the run's configuration, not from the conditions that happen to exist."""
+    (every executor.execute during the search, timeouts included), statements = max(the statement
+    condition's count, the harness's sum of num_executed_statements over the results); LIMITS from the run's configuration, not from the conditions that happen to exist."""
     cfg = run["cfg"]
     lim = {"itlim": max(int(cfg.get("iterations", -1)), 0), "exlim": max(int(cfg.get("executions", -1)), 0),
            "stlim": max(int(cfg.get("statements", -1)), 0)}
 
-    def counters(conds, execs_seen):
+    def counters(conds, execs_seen, stmts_seen=0):
         d = {"iters": 0, "execs": int(execs_seen), "stmts": 0, **lim, "has_it": False, "has_ex": False, "has_st": False}
         for c in conds:
             if c["name"] == "MaxIterationsStoppingCondition":
@@ -56,7 +63,9 @@ def project(run: dict) -> dict:
             elif c["name"] == "MaxTestExecutionsStoppingCondition":
                 d["execs"], d["has_ex"] = max(c["cur"], int(execs_seen)), True
             elif c["name"] == "MaxStatementExecutionsStoppingCondition":
-                d["stmts"], d["has_st"] = c["cur"], True
+                # the larger of the condition's own count and the harness's sum over the results: a
+                # condition that forgets statements (a reset in the wrong hook) must not hide them
+                d["stmts"], d["has_st"] = max(c["cur"], int(stmts_seen)), True
         return d
 
     evs = []
@@ -65,7 +74,7 @@ def project(run: dict) -> dict:
         if e["ev"] == "SearchStart":
             init = {"ev": "SearchStart", "res": True, **counters(e["conds"], 0)}
         elif e["ev"] in ("LoopTest", "IterEnd", "FirstIter", "SearchEnd"):
-            evs.append({"ev": e["ev"], "res": bool(e.get("result", True)), **counters(e["conds"], e.get("execs", 0))})
+            evs.append({"ev": e["ev"], "res": bool(e.get("result", True)), **counters(e["conds"], e.get("execs", 0), e.get("stmts", 0))})
     return {"init": init, "ev": evs}
 
 
